@@ -22,12 +22,16 @@ DictsOver(keys, vals) == { DictOf(f) : f \in UNION { [K -> vals] : K \in SUBSET 
 PathVals == << PathV("missing", sE, <<>>), PathV("file", sE, <<>>), PathV("file", sA, <<>>), PathV("file", sAB, <<>>),
                PathV("dir", sE, <<>>), PathV("dir", sE, <<StrV(sA)>>), PathV("dir", sE, <<StrV(sA), StrV(sB)>>) >>
 
+\* inner lists of the list-of-lists sort (the empty one matters: AnyMatch on it is an empty mismatch)
+InnerLists == { ListV(<<>>), ListV(<<IntV(0)>>), ListV(<<IntV(1)>>), ListV(<<IntV(0), IntV(1)>>) }
+
 \* ---- quick universe -------------------------------------------------------------------------
 ValsQ == [s \in AllSorts |->
     CASE s = "int"  -> << IntV(0), IntV(1), IntV(2) >>
       [] s = "str"  -> << StrV(sE), StrV(sA), StrV(sB), StrV(sAB) >>
       [] s = "lint" -> SetToSeq({ ListV(l) : l \in SeqsUpTo({IntV(0), IntV(1), IntV(2)}, 2) })
       [] s = "lstr" -> SetToSeq({ ListV(l) : l \in SeqsUpTo({StrV(sA), StrV(sB)}, 2) })
+      [] s = "llint" -> SetToSeq({ ListV(l) : l \in SeqsUpTo(InnerLists, 2) })
       [] s = "dict" -> SetToSeq({ DictV(d) : d \in DictsOver({"k1", "k2"}, {0, 1}) })
       [] s = "obj"  -> << Obj(1), Obj(2), Obj(3), Obj(4) >>
       [] s = "exc"  -> SetToSeq({ ExcV(ty, n) : ty \in ExcTypes, n \in {0, 1} })
@@ -66,6 +70,9 @@ ExcT(tys) == [op |-> "MatchesException", form |-> "type", tys |-> tys, vk |-> "n
 ExcR(tys, n) == [op |-> "MatchesException", form |-> "type", tys |-> tys, vk |-> "re", n |-> n]
 At(c, star) == [c |-> c, star |-> star]
 Re(atoms, anch) == [op |-> "MatchesRegex", pat |-> [atoms |-> atoms, anch |-> anch]]
+\* zero-arity combinators: MatchesAny() never matches, MatchesAll() always matches; usable at every sort
+NoAlt == [op |-> "MatchesAny", ms |-> <<>>]
+NoReq == [op |-> "MatchesAll", ms |-> <<>>, fo |-> FALSE]
 FileC(s) == [op |-> "FileContains", ref |-> StrV(s)]
 DirC(ns) == [op |-> "DirContains", refs |-> ns]
 
@@ -73,7 +80,7 @@ I(n) == IntV(n)
 IL(l) == ListV([j \in DOMAIN l |-> IntV(l[j])])
 SL(l) == ListV([j \in DOMAIN l |-> StrV(l[j])])
 
-LeafQ == [s \in AllSorts |->
+LeafQ0 == [s \in AllSorts |->
     CASE s = "int" ->
            { Eq(I(0)), Eq(I(1)), Eq(I(2)), Ne(I(1)), IsE(I(1)), Lt(I(1)), Lt(I(2)), Gt(I(0)), Gt(I(1)),
              Inst(<<"int">>), Inst(<<"text">>), Inst(<<"text", "int">>), Always, Never, Pred("even"),
@@ -101,17 +108,21 @@ LeafQ == [s \in AllSorts |->
            { ExcI("VE", 0), ExcI("KE", 1), ExcI("LE", 0), ExcI("BE", 1),
              ExcT(<<"VE">>), ExcT(<<"LE">>), ExcT(<<"EX">>), ExcT(<<"BX">>), ExcT(<<"BE">>), ExcT(<<"VE", "KE">>),
              ExcR(<<"VE">>, 0), ExcR(<<"EX">>, 1), ExcR(<<"BX">>, 1), Inst(<<"tuple">>), Always, Never }
+      [] s = "llint" ->
+           { Eq(ListV(<<IL(<<0>>)>>)), Len_(1), Has(IL(<<>>)), Always, Never }
       [] s = "call" -> { [op |-> "RaisesAny"], Always, Never }
       [] s = "path" ->
            { [op |-> "PathExists"], [op |-> "DirExists"], [op |-> "FileExists"],
              FileC(sA), FileC(sE), DirC(<<StrV(sA)>>), DirC(<<StrV(sB), StrV(sA)>>), DirC(<<>>), DirC(<<StrV(sA), StrV(sA)>>),
              Always, Never } ]
 
+LeafQ == [s \in AllSorts |-> LeafQ0[s] \cup {NoAlt, NoReq}]
+
 \* small alphabet for depth 3 / ternary nodes: the leaves are chosen so that assignments are ambiguous
 LeafS == [s \in AllSorts |->
-    CASE s = "int"  -> { Eq(I(0)), Lt(I(2)), Gt(I(0)), Never }
+    CASE s = "int"  -> { Eq(I(0)), Lt(I(2)), Gt(I(0)), NoAlt }
       [] s = "str"  -> { Eq(StrV(sA)), Starts(sA), Ends(sB) }
-      [] s = "exc"  -> { ExcT(<<"LE">>), ExcI("BE", 1) }
+      [] s = "exc"  -> { ExcT(<<"LE">>), ExcI("BE", 1), NoAlt }
       [] s = "call" -> { [op |-> "RaisesAny"] }
       [] s = "path" -> { [op |-> "PathExists"] }
       [] OTHER -> {} ]
